@@ -330,3 +330,52 @@ def true_conditions(body):
             else:
                 out.append(conds + [bd])
     return out
+
+
+def nonempty_of(t):
+    """t is a boolean term meaning `v is not empty` (!v.is_empty(), v.len() > 0, v.len() != 0, v.len() >= 1, 0 < v.len()) -> term of v, else None"""
+    t = strip(t)
+    if not isinstance(t, tuple):
+        return None
+
+    def len_of(x):
+        x = strip(x)
+        if isinstance(x, tuple) and x[0] == 'call' and mir.cname(x[1]).split('::')[-1] == 'len':
+            return strip(x[2])
+        return None
+    if t[0] == 'un' and t[1] == 'Not':
+        x = strip(t[2])
+        if isinstance(x, tuple) and x[0] == 'call' and mir.cname(x[1]).split('::')[-1] == 'is_empty':
+            return strip(x[2])
+        return None
+    if t[0] == 'bin':
+        op, a, b = t[1], t[2], t[3]
+        la, lb = len_of(a), len_of(b)
+        ca, cb = const_val(a), const_val(b)
+        if la is not None and ((op in ('Gt', 'Ne') and cb == 0) or (op == 'Ge' and cb == 1)):
+            return la
+        if lb is not None and ((op in ('Lt', 'Ne') and ca == 0) or (op == 'Le' and ca == 1)):
+            return lb
+    return None
+
+
+def emptiness_guard(g, truth):
+    """A branch condition g known to be `truth` on an edge, read as a statement about a sequence v:
+    -> (term of v, True) when the edge implies v is empty, (v, False) when it implies v is not empty, else None."""
+    g = strip(g)
+    if truth not in (True, False) or not isinstance(g, tuple):
+        return None
+    if g[0] == 'call' and mir.cname(g[1]).split('::')[-1] == 'is_empty':
+        return strip(g[2]), truth
+    if g[0] == 'un' and g[1] == 'Not':
+        r = emptiness_guard(g[2], not truth)
+        return r
+    v = nonempty_of(g)
+    if v is not None:
+        return v, (not truth)
+    if g[0] == 'bin' and g[1] == 'Eq':
+        for a, b in ((g[2], g[3]), (g[3], g[2])):
+            a = strip(a)
+            if isinstance(a, tuple) and a[0] == 'call' and mir.cname(a[1]).split('::')[-1] == 'len' and const_val(b) == 0:
+                return strip(a[2]), truth
+    return None
